@@ -1,5 +1,5 @@
 import vlib
-from props import protocommon
+from props import protocommon, varint
 from props.common import generic_replay
 
 PROP = "C12"
@@ -14,7 +14,7 @@ ASSUME = ["google.golang.org/protobuf v1.25.0 (dynamicpb) validates the specific
 
 
 def run(tier, seed):
-    return protocommon.run(PROP, tier, seed, RULE, ASSUME, shards=(1 if PROP == "C07" else 4), isolate=(PROP in ("C03", "C07")))
+    return protocommon.run(PROP, tier, seed, RULE + varint.RULES[PROP], ASSUME, shards=(1 if PROP == "C07" else 4), isolate=(PROP in ("C03", "C07")), extra_vec=varint.adder(tier))
 
 
 def replay(path, seed):
